@@ -4,6 +4,8 @@ import (
 	"bytes"
 	"fmt"
 
+	"github.com/hashicorp/raft"
+	wal "github.com/hashicorp/raft-wal"
 	"github.com/hashicorp/raft-wal/segment"
 	"github.com/hashicorp/raft-wal/types"
 
@@ -148,3 +150,44 @@ func init() {
 	Harnesses["HarnessFormatWrite"] = HarnessFormatWrite
 	Harnesses["HarnessFormatRead"] = HarnessFormatRead
 }
+
+// HarnessGolden (C09): a directory written by the pinned version (real fs and
+// BoltDB, 512-byte segments, head and tail truncations, re-appended entries)
+// opens with identical contents. The bytes are concrete: this run exercises
+// the real read path in the engine (and natively); the solver's part of C09 is
+// the differential harnesses above.
+func HarnessGolden() {
+	w := sym.NewWorld()
+	fs := sym.NewFS(w)
+	meta := sym.NewMeta(w)
+	for name, data := range goldenFiles {
+		fs.Put(name, data)
+	}
+	meta.State = goldenState
+	l, err := wal.Open("d", wal.WithSegmentFiler(segment.NewFiler("d", fs)), wal.WithMetaStore(meta), wal.WithSegmentSize(512))
+	vrt.Assert("C09.golden-open-ok", err == nil)
+	if err != nil {
+		return
+	}
+	first, _ := l.FirstIndex()
+	last, _ := l.LastIndex()
+	vrt.Assert("C09.golden-first", first == goldenEntries[0].Index)
+	vrt.Assert("C09.golden-last", last == goldenEntries[len(goldenEntries)-1].Index)
+	for _, e := range goldenEntries {
+		var out raft.Log
+		err := l.GetLog(e.Index, &out)
+		vrt.Assert("C09.golden-entry-readable", err == nil)
+		vrt.Assert("C09.golden-entry-equal", out.Index == e.Index && out.Term == e.Term && bytes.Equal(out.Data, e.Data))
+	}
+	// every file's header agrees with its name and metadata
+	for _, si := range goldenState.Segments {
+		d := fs.Data(segment.FileName(si))
+		vrt.Assert("C09.golden-file-present", len(d) >= 32)
+		if len(d) >= 32 {
+			vrt.Assert("C09.golden-header", bytes.Equal(d[:32], refformat.Header(si.BaseIndex, si.ID, si.Codec)))
+		}
+	}
+	vrt.Reach("golden-checked")
+}
+
+func init() { Harnesses["HarnessGolden"] = HarnessGolden }
